@@ -219,6 +219,16 @@ DropConfirm ==                                    \* the run continues without t
   /\ net[1].S # <<>>
   /\ Tamper([op |-> "drop", at |-> net[1].kind, kind |-> "", pos |-> 0], [net[1] EXCEPT !.S = <<>>])
 
+(* The channel may deliver again: after the initiator refused an altered confirmation value it still holds its      *)
+(* ephemeral key, and the genuine message of the responder (what B really sent) can reach it later.  ConfirmResponder *)
+(* is a function of the initiator's state after InitKx and of the delivered message, so the genuine message must then  *)
+(* be accepted and give the same key.                                                                                  *)
+Redeliver ==
+  /\ party.A.phase = "failed" /\ party.A.why = "badconfirm" /\ party.B.phase = "responded" /\ net = <<>>
+  /\ party' = [party EXCEPT !.A = [@ EXCEPT !.phase = "sent", !.why = ""]]
+  /\ net' = <<Msg("RB", party.B.R, party.B.sSent)>>
+  /\ UNCHANGED <<adv, reply>>
+
 (* ------------------------------------------------ C08 stated on the model *)
 Parties == {"A", "B"}
 Done(p)   == party[p].phase = "done"
